@@ -389,6 +389,22 @@ fn run(op: &str, args: &[Sx]) -> Option<Sx> {
                 let (Some(input), Some(k)) = (st.first().and_then(Sx::as_cp_string), st.get(1).and_then(opt_k)) else {
                     return Some(sx::bad());
                 };
+                // pseudo-step: save the variables and load them into a fresh context with the same settings
+                if input == "@@roundtrip" {
+                    let mut buf = Vec::new();
+                    let res = match ctx.serialize_variables(&mut buf) {
+                        Err(m) => sx::l(vec![sx::s("e"), sx::cps(&m), sx::s("Serialize")]),
+                        Ok(()) => {
+                            let (mut fresh, _h) = make_context(flags, &[]);
+                            match fresh.deserialize_variables(&mut buf.as_slice()) {
+                                Ok(()) => { ctx = fresh; sx::l(vec![sx::s("o"), sx::cps("roundtrip"), sx::a(0)]) }
+                                Err(m) => sx::l(vec![sx::s("e"), sx::cps(&m), sx::s("Deserialize")]),
+                            }
+                        }
+                    };
+                    outs.push(sx::l(vec![res, sx::a(0), snapshot_vars(&ctx), sx::a(0), sx::a(0), sx::a(0), sx::a(0)]));
+                    continue;
+                }
                 // error kind from an identical run on a copy (same firing point)
                 let kind = {
                     let mut c2 = ctx.clone();
